@@ -457,6 +457,10 @@ class Replayer:
                     side.alive, side.why = False, "polars-subquery"
                     return
                 subq = True
+                if self.opts.get("fresh_decision", True) and not self.fresh_also_refuses(beh, k, bk):
+                    self.fail(node, beh, k, bk, "subq-shared",
+                              "the verb is refused with SubqueryError on a table object that other pipelines were built from before, "
+                              "but accepted when the same pipeline is built from scratch")
                 if never_needs([st["m"] for st in beh["steps"][: k + 1]]):
                     self.fail(node, beh, k, bk, "never-needs",
                               f"pipeline of the class that never needs a subquery was refused: {str(e)[-160:]}")
@@ -604,6 +608,54 @@ class Replayer:
             res = CMP.compare_rows(CMP.frame_rows(dl), CMP.frame_rows(dr), val["lo"]["tys"], None)
             if res is not None:
                 self.fail(node, beh, k, bk, "equiv", f"{m['kind']}: the two sides differ: " + res[1])
+
+    def fresh_also_refuses(self, beh, k, bk) -> bool:
+        """rebuilds the behaviour prefix from fresh source tables (no object shared with any other pipeline): is step k refused too?"""
+        R = self.R
+        root = self.make_root(beh)
+        side = root.sides[bk]
+        try:
+            for j, st in enumerate(beh["steps"][: k + 1]):
+                m = st["m"]
+                if m["v"] in ("equiv", "getname"):
+                    continue
+                try:
+                    res = R.apply_move(m, side.heap, side.colmap)
+                except Exception as e:  # noqa: BLE001
+                    if exc_class(e) != "SubqueryError":
+                        if j == k:
+                            return True
+                        continue
+                    if j == k:
+                        return True
+                    heap2 = list(side.heap)
+                    res = None
+                    for which in (("i",), ("j",), ("i", "j")):
+                        if any(w not in m for w in which):
+                            continue
+                        try:
+                            h3 = list(heap2)
+                            for w in which:
+                                h3[m[w] - 1] = h3[m[w] - 1] >> R.alias(keep_col_refs=True)
+                            res = R.apply_move(m, h3, side.colmap)
+                            break
+                        except Exception:  # noqa: BLE001
+                            res = None
+                    if res is None:
+                        return True
+                if "o" in st:
+                    while len(side.heap) < st["out"] - 1:
+                        side.heap.append(None)
+                    side.heap.append(res)
+                    for cid, n in zip(st["o"]["ids"], st["o"]["names"]):
+                        if cid not in side.colmap:
+                            try:
+                                side.colmap[cid] = res[n]
+                            except Exception:  # noqa: BLE001
+                                pass
+            return False
+        except Exception:  # noqa: BLE001
+            return True
 
     def retry_with_alias(self, node, beh, k, side, m):
         """C08: inserting alias() directly before the refused verb must make it accepted."""
